@@ -32,6 +32,7 @@ MODELLED["C07"] = ["l4tls.parseRawClientHello", "l4tls.supportedVersionsFromMax"
 MODELLED["C16"] = ["l4socks.Socks5Handler.Provision", "l4socks.Socks5Handler.Handle"]
 MODELLED["C03"] = ["l4proxy.Handler.proxy", "l4proxy.Handler.Handle", "l4proxy.Handler.dialPeers"]
 MODELLED["C11"] = ["l4proxy.Handler.Handle", "l4proxy.Handler.dialPeers", "l4proxy.Handler.countFailure", "l4proxy.LoadBalancing.tryAgain", "l4proxy.Upstream.available", "l4proxy.Upstream.healthy", "l4proxy.Upstream.full", "l4proxy.peer.countConn", "l4proxy.peer.countFail", "l4proxy.peer.setHealthy", "l4proxy.Handler.doActiveHealthCheck", "l4proxy.Upstream.provision"]
+MODELLED["C15"] = ["layer4.parseLayer4", "layer4.ParseCaddyfileNestedRoutes", "layer4.ParseCaddyfileNestedHandlers", "layer4.ParseCaddyfileNestedMatcherSet", "layer4.SetModuleNameInline", "layer4.Server.UnmarshalCaddyfile", "layer4.MatchNot.UnmarshalCaddyfile", "layer4.MatchRemoteIP.UnmarshalCaddyfile", "layer4.MatchLocalIP.UnmarshalCaddyfile", "l4subroute.Handler.UnmarshalCaddyfile", "l4tee.Handler.UnmarshalCaddyfile", "l4throttle.Handler.UnmarshalCaddyfile", "l4proxyprotocol.Handler.UnmarshalCaddyfile", "l4proxy.Handler.UnmarshalCaddyfile", "l4regexp.MatchRegexp.UnmarshalCaddyfile"]
 MODELLED["C17"] = ["l4throttle.throttledConn.Read", "l4throttle.Handler.Handle", "l4throttle.Handler.Provision"]
 rows = {}
 for m in re.finditer(r'⟨"([^"]+)", "([0-9a-f]+)", (\d+), (\d+), (\d+), (\d+), (\d+), (\d+)⟩', open(os.path.join(V, "lean/L4/Gen/Census.lean")).read()):
